@@ -1,12 +1,15 @@
 /-
   C02 (multi-limb layer) — mpn_sb_divappr_q: the approximate schoolbook quotient is ⌊N/D⌋ or ⌊N/D⌋ + 1
-  ("The quotient returned is either correct, or one too large", sb_divappr_q.c:1-3) for ALL lengths and limb contents.
-  Property theorems only; helper lemmas live in MpirProofs/Lemmas/SbDivQ.lean, SbDivQLoop.lean, SbDivQTop.lean.
+  ("The quotient returned is either correct, or one too large", sb_divappr_q.c:1-3), and mpn_sb_div_q: the quotient is exactly
+  ⌊N/D⌋, including the final correction code — for ALL lengths and limb contents.
+  Property theorems only; helper lemmas live in MpirProofs/Lemmas/SbDivQ.lean, SbDivQLoop.lean, SbDivQTop.lean (divappr) and
+  SbDivQExact.lean, SbDivQExactLoop.lean, SbDivQFix.lean, SbDivQFix2.lean, SbDivQTri.lean, SbDivQExactTop.lean (div_q).
   The theorems are about the executable limb-for-limb model Mpir/Model/SbDivQ.lean of mpn/generic/sb_divappr_q.c, which the
   correspondence check runs against the real function (op `sb_divappr_q`, outputs compared verbatim) on every run.
   Ingredients: udiv_qr_3by2 / invert_pi1 (C02_word), submul_1, add_n, sub_n, cmp (Kernels), the arithmetic cores of C02_sb.
 -/
 import MpirProofs.Lemmas.SbDivQTop
+import MpirProofs.Lemmas.SbDivQExactTop
 namespace Mpir.SbDivQ
 open Mpir Mpir.DivWord Mpir.SbDiv
 
@@ -82,6 +85,70 @@ example : sb_divappr_q [3, 0xfffffffffffffffe, 0x8000000000000000, 1, 0x80000000
 -- qh = 1 with an add-back in the truncating loop
 example : sb_divappr_q [9, 0, 2, 2, 0xfffffffffffffffe] [5, 1, 0x8000000000000000] (invert_pi1 0x8000000000000000 1)
       = ([0xffffffffffffffff, 0xfffffffffffffffb], [0x1a, 0x7ffffffffffffffc, 0], 1) := by
+  decide
+
+/-! ## mpn_sb_div_q -/
+
+/-- mpn_sb_div_q (qp, np, nn, dp, dn, dinv), sb_div_q.c:36-301.  Preconditions = the C's ASSERTs (dn > 2, nn ≥ dn, high bit of
+    dp[dn-1] set), dinv = mpir_invert_pi1 (dp[dn-1], dp[dn-2]), and 2·dn + 2 ≤ 2^64 (sizes are mp_size_t; the test
+    `n1 < dn` at :202 is sound only while the ignored parts stay below dn·B^(dn-1) ≤ D).
+    The model returns `some` (no ASSERT_ALWAYS of the C can fire), the nn-dn quotient limbs q and qh ∈ {0,1} with
+    qh·B^(nn-dn) + q = ⌊N/D⌋ exactly.  Covers every path: the cut of the divisor to qn+1 limbs, the exact first loop, the
+    truncating loop (ordinary 3/2 steps with add-back; the q = B-1 steps with exact / add-back / `flag = 0` outcome,
+    after which every limb is B-1 and the fix-up is skipped), the last limb, the test `n1 < dn`, and the fix-up code:
+    triangularization compensation with its early exit, compensation for the ignored divisor and dividend tails (qh·D_low
+    and q·D_low) with their three exits and the borrow into qh. -/
+theorem sb_div_q_exact (n d : List Nat) (dinv : Nat) (hdn : 3 ≤ d.length) (hnn : d.length ≤ n.length)
+    (hnorm : B / 2 ≤ d.getD (d.length - 1) 0) (hn : Limbs n) (hd : Limbs d)
+    (hdinv : dinv = invert_pi1 (d.getD (d.length - 1) 0) (d.getD (d.length - 2) 0))
+    (hsize : 2 * d.length + 2 ≤ B) :
+    ∃ q qh, sb_div_q n d dinv = some (q, qh) ∧ q.length = n.length - d.length ∧ Limbs q ∧ qh ≤ 1 ∧
+      qh * B ^ (n.length - d.length) + val q = val n / val d := by
+  rcases Nat.lt_or_ge d.length n.length with h | h
+  · exact sb_div_q_spec n d dinv hdn h hnorm hn hd hdinv hsize
+  · have hl : n.length = d.length := by omega
+    obtain ⟨qh, e, hqh, hv⟩ := sb_div_q_spec0 n d dinv hdn hl hnorm hn hd
+    refine ⟨[], qh, e, by simp [hl], Limbs_nil, hqh, ?_⟩
+    rw [hl, Nat.sub_self, pow_zero, Nat.mul_one, val_nil, Nat.add_zero]; exact hv
+
+/-! Non-vacuity (values cross-checked with the real function by the directed ops of tools/props/c02_sbq.py). -/
+
+-- fix-up, "ignored tails" part: the borrow of qh·D_low with x = 0 decrements B^1 + 0 to 0·B + (B-1)
+example : sb_div_q [0xffffffffffffffff, 4, 0, 0, 0x8000000000000001] [5, 0, 0, 0x8000000000000001]
+      (invert_pi1 0x8000000000000001 0) = some ([0xffffffffffffffff], 0) ∧
+    val [0xffffffffffffffff, 4, 0, 0, 0x8000000000000001] / val [5, 0, 0, 0x8000000000000001] = B - 1 := by
+  decide
+
+-- q = B-1 steps with exact borrow (n1 == cy), truncating loop
+example : sb_div_q [0xfffffffffffffffc, 0, 0x8000000000000003, 0xfffffffffffffffe, 0x8000000000000001]
+      [5, 0xffffffffffffffff, 0x8000000000000001] (invert_pi1 0x8000000000000001 0xffffffffffffffff)
+    = some ([0xffffffffffffffff, 0xffffffffffffffff], 0) := by
+  decide
+
+-- q = B-1 step with add-back (q = B-2) in the truncating loop, first loop before it
+example : sb_div_q [0xffffffffffffffff, 9, 0xfffffffffffffffe, 9, 3, 2] [5, 0xffffffffffffffff, 0x8000000000000000]
+      (invert_pi1 0x8000000000000000 0xffffffffffffffff) = some ([0x1f, 0xfffffffffffffffe, 3], 0) := by
+  decide
+
+-- fix-up: early exit of the triangularization loop (quotient B^2 + 1 decremented to B^2)
+example : sb_div_q [0xffffffffffffffff, 0, 5, 0x8000000000000002, 5, 0x8000000000000001] [0, 1, 5, 0x8000000000000001]
+      (invert_pi1 0x8000000000000001 5) = some ([0, 0], 1) := by
+  decide
+
+-- fix-up: exit of the tail loop (q·D_low borrows with x = 0)
+example : sb_div_q [0xfffffffffffffffe, 4, 6, 0x8000000000000001, 0x8000000000000001] [0xffffffffffffffff, 5, 0, 0x8000000000000001]
+      (invert_pi1 0x8000000000000001 0) = some ([0], 1) := by
+  decide
+
+-- `flag = 0`: the window exceeds (B-1)·d by B^len, all remaining limbs B-1, no fix-up
+example : sb_div_q [0xffffffffffffffff, 0xffffffffffffffff, 4, 0xffffffffffffffff, 0xffffffffffffffff]
+      [5, 0xffffffffffffffff, 0xffffffffffffffff] (invert_pi1 0xffffffffffffffff 0xffffffffffffffff)
+    = some ([0xffffffffffffffff, 0xffffffffffffffff], 0) := by
+  decide
+
+-- nn = dn: qh decided by the fix-up alone (N = D - 1 gives 0, N = D gives 1)
+example : sb_div_q [4, 7, 0x8000000000000000] [5, 7, 0x8000000000000000] (invert_pi1 0x8000000000000000 7) = some ([], 0) ∧
+    sb_div_q [5, 7, 0x8000000000000000] [5, 7, 0x8000000000000000] (invert_pi1 0x8000000000000000 7) = some ([], 1) := by
   decide
 
 end Mpir.SbDivQ
